@@ -1,6 +1,7 @@
 package main
 
 import (
+	"encoding/hex"
 	"fmt"
 	"math/rand"
 	"os"
@@ -9,6 +10,7 @@ import (
 	"strings"
 	"time"
 
+	"github.com/relex/fluentlib/protocol/forwardprotocol"
 	"github.com/relex/gotils/logger"
 	"github.com/relex/gotils/promexporter/promreg"
 	"github.com/relex/slog-agent/base"
@@ -16,6 +18,10 @@ import (
 	"github.com/relex/slog-agent/base/bsupport"
 	"github.com/relex/slog-agent/base/btest"
 	"github.com/relex/slog-agent/input/sysloginput"
+	"github.com/relex/slog-agent/output/fluentdforward"
+	"github.com/relex/slog-agent/rewrite/rcopy"
+	"github.com/relex/slog-agent/rewrite/rinline"
+	"github.com/relex/slog-agent/rewrite/runescape"
 	"github.com/relex/slog-agent/run"
 	"github.com/relex/slog-agent/util"
 	"gopkg.in/yaml.v3"
@@ -568,6 +574,8 @@ func (c *cfgComp) Impl(cs Case) []string {
 			}
 		case "cfg file":
 			out[i] = cfgFile(o.Meta, workRoot)
+		case "cfg ser":
+			out[i] = cfgSer(o.Strs)
 		default:
 			out[i] = "bad-op"
 		}
@@ -578,8 +586,11 @@ func (c *cfgComp) Impl(cs Case) []string {
 // the "cfg file" op has no model request: it is sent as a no-op to the driver
 func (c *cfgComp) Oracle(cs Case, impl []string) string {
 	for i, o := range cs.Ops {
-		if strings.HasPrefix(impl[i], "panic") || strings.HasPrefix(impl[i], "accepted-but") {
+		if strings.HasPrefix(impl[i], "panic") || strings.HasPrefix(impl[i], "accepted-but") || strings.HasPrefix(impl[i], "accept-but") {
 			return fmt.Sprintf("%s [%s]: %s", o.Name, o.Strs0(), impl[i])
+		}
+		if o.Name == "cfg ser" && o.Meta == "#valid" && impl[i] != "accept" {
+			return "generated valid output section rejected: " + strings.Join(o.Strs, " ")
 		}
 		if o.Name == "cfg verify" && strings.HasPrefix(o.Meta, "#valid\n") && impl[i] != "accept" {
 			return "generated valid transform list rejected: " + o.Meta
@@ -764,6 +775,16 @@ func (c *cfgComp) Generate(rng *rand.Rand, n int, emit func(Case)) {
 			emit(Case{Ops: []Op{schemaOp, cfgVerifyOp(m, 1, desc)}, Tag: "tc-mutated"})
 		}
 	}
+	// the Fluentd Forward output section (Model/CfgSer.lean): environment / hidden fields, rewriter chains on any field —
+	// also on hidden and environment fields, where a chain has no visible effect but is still built —, message mode, upstream
+	for i := 0; i < n/4; i++ {
+		strs, valid := cfgGenSer(rng)
+		meta := ""
+		if valid {
+			meta = "#valid"
+		}
+		emit(Case{Ops: []Op{schemaOp, {Name: "cfg ser", Strs: strs, Meta: meta}}, Tag: map[bool]string{true: "ser-valid", false: "ser-mutated"}[valid]})
+	}
 	// file level
 	if sampleConfigText == nil {
 		sampleConfigText, _ = os.ReadFile("/repo/testdata/config_sample.yml")
@@ -798,6 +819,77 @@ func (c *cfgComp) Generate(rng *rand.Rand, n int, emit func(Case)) {
 		_ = limit
 		emit(Case{Ops: []Op{fileOp(desc, text)}, Tag: "file-mutated"})
 	})
+	// variant documents: a construct that is valid in one position is also placed in every sibling position the grammar
+	// allows, including positions where it has no visible effect (a rewriter chain on a hidden or environment field);
+	// the variant must still load, and its mutants are run like the sample's
+	var root2 yaml.Node
+	if err := yaml.Unmarshal(sampleConfigText, &root2); err != nil {
+		return
+	}
+	if cfgSpreadRewriters(&root2) > 0 {
+		v2, _ := yaml.Marshal(&root2)
+		emit(Case{Ops: []Op{fileOp("v2: rewriters on hidden and environment fields", string(v2))}, Tag: "file-valid"})
+		yamlMutants(&root2, fields, func(desc, text string) {
+			if text == "" {
+				return
+			}
+			emit(Case{Ops: []Op{fileOp("v2:"+desc, text)}, Tag: "file-mutated"})
+		})
+	}
+}
+
+// cfgSpreadRewriters copies, in every `serialization` mapping, the first rewriter chain of `rewriteFields` to the first
+// hidden field and the first environment field (fields that are masked in the output). Returns the number of chains added.
+func cfgSpreadRewriters(n *yaml.Node) int {
+	added := 0
+	if n.Kind == yaml.MappingNode {
+		var rewrite *yaml.Node
+		var masked []string
+		for i := 0; i+1 < len(n.Content); i += 2 {
+			k, v := n.Content[i], n.Content[i+1]
+			switch k.Value {
+			case "rewriteFields":
+				if v.Kind == yaml.MappingNode && len(v.Content) >= 2 {
+					rewrite = v
+				}
+			case "hiddenFields", "environmentFields":
+				if v.Kind == yaml.SequenceNode && len(v.Content) > 0 {
+					masked = append(masked, v.Content[0].Value)
+				}
+			}
+		}
+		if rewrite != nil {
+			chain := rewrite.Content[1]
+			for _, f := range masked {
+				dup := false
+				for i := 0; i+1 < len(rewrite.Content); i += 2 {
+					if rewrite.Content[i].Value == f {
+						dup = true
+					}
+				}
+				if dup {
+					continue
+				}
+				rewrite.Content = append(rewrite.Content, &yaml.Node{Kind: yaml.ScalarNode, Tag: "!!str", Value: f}, cfgCloneNode(chain))
+				added++
+			}
+		}
+	}
+	for _, c := range n.Content {
+		added += cfgSpreadRewriters(c)
+	}
+	return added
+}
+
+func cfgCloneNode(n *yaml.Node) *yaml.Node {
+	c := *n
+	c.Content = nil
+	c.Alias = nil
+	c.Anchor = ""
+	for _, ch := range n.Content {
+		c.Content = append(c.Content, cfgCloneNode(ch))
+	}
+	return &c
 }
 
 func maxInt(a, b int) int {
@@ -814,4 +906,200 @@ func cfgVerifyOp(steps []cStep, mutated int, desc string) Op {
 		o.Meta = "#valid\n" + o.Meta
 	}
 	return o
+}
+
+
+// ---- the output section: serializer and rewriters ----
+
+func hexNames(l []string) string {
+	if len(l) == 0 {
+		return "-"
+	}
+	h := make([]string, len(l))
+	for i, s := range l {
+		h[i] = "x" + hex.EncodeToString([]byte(s))
+	}
+	return strings.Join(h, ",")
+}
+
+// cfgGenSer returns the five tokens of a `cfg ser` op (env, hidden, mode, flags, rewrite) and whether the section is valid by
+// construction.
+func cfgGenSer(rng *rand.Rand) ([]string, bool) {
+	valid := true
+	field := func() string { return fname(rng.Intn(xNumFields)) }
+	bad := func(p int) bool { return rng.Intn(100) < p }
+	pick := func(n int) []string {
+		var l []string
+		for i := 0; i < n; i++ {
+			if bad(4) {
+				valid = false
+				l = append(l, []string{"nosuchfield", "", "F0"}[rng.Intn(3)])
+			} else {
+				l = append(l, field())
+			}
+		}
+		return l
+	}
+	env := pick(1 + rng.Intn(3))
+	if bad(4) {
+		env, valid = nil, false
+	}
+	hid := pick(rng.Intn(4))
+	mode := []string{"Forward", "PackedForward", "CompressedPackedForward"}[rng.Intn(3)]
+	if bad(4) {
+		mode, valid = []string{"", "forward", "Bogus"}[rng.Intn(3)], false
+	}
+	flags := "111"
+	if bad(5) {
+		flags, valid = []string{"001", "101", "110", "100"}[rng.Intn(4)], false
+	}
+	var entries []string
+	used := map[string]bool{}
+	for k := rng.Intn(4); k > 0; k-- {
+		f := field()
+		switch rng.Intn(5) {
+		case 0:
+			if len(env) > 0 {
+				f = env[rng.Intn(len(env))]
+			}
+		case 1:
+			if len(hid) > 0 {
+				f = hid[rng.Intn(len(hid))]
+			}
+		}
+		if bad(4) {
+			f, valid = "nosuchfield", false
+		}
+		if used[f] {
+			continue
+		}
+		used[f] = true
+		// a chain: inline* then copy | unescape, or a damaged one
+		var steps []string
+		for j := rng.Intn(3); j > 0; j-- {
+			t := field()
+			if bad(6) {
+				t, valid = []string{"nosuchfield", ""}[rng.Intn(2)], false
+			}
+			steps = append(steps, "i"+hex.EncodeToString([]byte(t)))
+		}
+		steps = append(steps, []string{"c", "u"}[rng.Intn(2)])
+		switch rng.Intn(14) {
+		case 0: // the last step is missing: `inline` last, or an empty chain
+			steps = steps[:len(steps)-1]
+			if len(steps) > 0 {
+				valid = false
+			}
+		case 1: // a step after the last one
+			steps = append(steps, []string{"c", "u", "i" + hex.EncodeToString([]byte(field()))}[rng.Intn(3)])
+			valid = false
+		case 2: // an entry without a value
+			steps[rng.Intn(len(steps))] = "n"
+			valid = false
+		}
+		ch := "-"
+		if len(steps) > 0 {
+			ch = strings.Join(steps, ",")
+		}
+		entries = append(entries, hex.EncodeToString([]byte(f))+":"+ch)
+	}
+	rw := "-"
+	if len(entries) > 0 {
+		rw = strings.Join(entries, ";")
+	}
+	m := hex.EncodeToString([]byte(mode))
+	if m == "" {
+		m = "-"
+	}
+	return []string{hexNames(env), hexNames(hid), m, flags, rw}, valid
+}
+
+// cfgSer builds the real fluentdforward.Config from the tokens, verifies it and, when accepted, instantiates the serializer
+// and serializes records with it.
+func cfgSer(strs []string) (res string) {
+	defer func() {
+		if r := recover(); r != nil {
+			res = "panic " + panicKind(r) + ": " + fmt.Sprint(r)
+		}
+	}()
+	if len(strs) != 5 {
+		return "bad-op"
+	}
+	unhexList := func(t string) []string {
+		if t == "-" {
+			return nil
+		}
+		var l []string
+		for _, h := range strings.Split(t, ",") {
+			b, _ := hex.DecodeString(strings.TrimPrefix(h, "x"))
+			l = append(l, string(b))
+		}
+		return l
+	}
+	names := make([]string, xNumFields)
+	for i := range names {
+		names[i] = fname(i)
+	}
+	schema := base.MustNewLogSchema(names)
+	cfg := &fluentdforward.Config{}
+	cfg.Type = "fluentdForward"
+	cfg.Serialization.EnvironmentFields = unhexList(strs[0])
+	cfg.Serialization.HiddenFields = unhexList(strs[1])
+	if strs[2] != "-" {
+		b, _ := hex.DecodeString(strs[2])
+		cfg.MessageMode = forwardprotocol.MessageMode(string(b))
+	}
+	if strs[3][0] == '1' {
+		if strs[3][1] == '1' {
+			cfg.Upstream.Address = "localhost:24224"
+		} else {
+			cfg.Upstream.Address = "localhost"
+		}
+	} else if strs[3][1] == '1' {
+		return "bad-op" // an empty address never splits
+	}
+	if strs[3][2] == '1' {
+		cfg.Upstream.MaxDuration = time.Minute
+	}
+	if strs[4] != "-" {
+		cfg.Serialization.RewriteFields = map[string][]bconfig.LogRewriterConfigHolder{}
+		for _, e := range strings.Split(strs[4], ";") {
+			kv := strings.SplitN(e, ":", 2)
+			fb, _ := hex.DecodeString(kv[0])
+			chain := []bconfig.LogRewriterConfigHolder{}
+			if kv[1] != "-" {
+				for j, st := range strings.Split(kv[1], ",") {
+					h := bconfig.LogRewriterConfigHolder{Location: fmt.Sprintf("verif:%d", j)}
+					switch {
+					case st == "c":
+						h.Value = &rcopy.Config{}
+					case st == "u":
+						h.Value = &runescape.Config{}
+					case st == "n":
+					case strings.HasPrefix(st, "i"):
+						b, _ := hex.DecodeString(st[1:])
+						h.Value = &rinline.Config{Field: string(b)}
+					}
+					chain = append(chain, h)
+				}
+			}
+			cfg.Serialization.RewriteFields[string(fb)] = chain
+		}
+	}
+	if err := cfg.VerifyConfig(schema); err != nil {
+		return "reject"
+	}
+	ser, err := fluentdforward.NewEventSerializer(logger.WithField("verif", "cfgser"), schema, cfg.Serialization)
+	if err != nil {
+		return "accept-but-construct-fails: " + err.Error()
+	}
+	for _, vals := range [][]string{make([]string, xNumFields), {"a\\nb [tag] web abc", "ab", "err", "id=1 x", "user a@b.c", "x", "y", "z"}} {
+		f := make(base.LogFields, xNumFields)
+		copy(f, vals)
+		rec := schema.NewTestRecord2(time.Unix(1, 0), f)
+		if out := ser.SerializeRecord(rec); len(out) == 0 {
+			return "accept-but-serializes-nothing"
+		}
+	}
+	return "accept"
 }
